@@ -192,3 +192,20 @@ def mutate(case, rng):
     for e in ("eof", "timeout"):
         out.append(with_input(case, segs, e))
     return [c for c in out if c != case]
+
+
+def known_late_delivery(case, impl, reason):
+    """sched probe, `latestart` (the command loop does not wait for the delivery goroutine): the goroutine of a chunked delivery has
+    fetched the session (conn.go, `session := c.Session()`) and is preempted before it calls Data; the connection ends and Conn.Close
+    logs the session out; the goroutine then begins Data on the logged-out session.  Only this: the single C08 reason, and no callback
+    other than the delivery's Data behind the Logout."""
+    if not case.startswith("sched\t") or "latestart" not in case:
+        return False
+    if reason.strip() != "bad: C08 callback on a session that is not live (after Logout)":
+        return False
+    ev = impl.split("\t")[0].split(";")
+    lo = [i for i, e in enumerate(ev) if e.startswith("LO:")]
+    if not lo:
+        return False
+    after = [e.split(":")[0] for e in ev[lo[0] + 1:]]
+    return all(a in ("DB", "D", "CLOSE", "W", "LM", "") for a in after) and "DB" in after
